@@ -138,6 +138,17 @@ func Main() {
 	}
 	r := &Run{Tier: *tier, Seed: seed, Prop: p}
 	specs := p.Harnesses(r)
+	if *tier == "thorough" {
+		// The thorough tier first repeats the quick tier's bounds (known to complete: a full coverage statement whatever
+		// happens next), then explores the deeper bounds under a time budget; a harness that hits the budget reports
+		// exhaustive=false together with what it covered.
+		var pre []HarnessSpec
+		for _, q := range p.Harnesses(&Run{Tier: "quick", Seed: seed, Prop: p}) {
+			q.Name += "@quick-bounds"
+			pre = append(pre, q)
+		}
+		specs = append(pre, specs...)
+	}
 
 	if *worker {
 		runWorker(specs, *wHarness, *wShard, *wNShards, *wSkip, *wDeadline)
@@ -516,9 +527,35 @@ func runAll(r *Run, specs []HarnessSpec, verifDir, only string) int {
 	}
 	results := make([]hres, len(sel))
 	var hwg sync.WaitGroup
+	// thorough tier: a wall-clock budget per property (VERIF_BUDGET_S, default 1500 s) shared by the deep harnesses
+	var end time.Time
+	seqLeft := 0
+	if r.Tier == "thorough" {
+		b := 1500.0
+		if v, err := strconv.ParseFloat(os.Getenv("VERIF_BUDGET_S"), 64); err == nil && v > 0 {
+			b = v
+		}
+		end = time.Now().Add(time.Duration(b * float64(time.Second)))
+		for _, s := range sel {
+			if !s.Isolated && !strings.HasSuffix(s.Name, "@quick-bounds") {
+				seqLeft++
+			}
+		}
+	}
 	for i, s := range sel {
 		if s.BudgetS > 0 {
 			s.Deadline = time.Now().Add(time.Duration(s.BudgetS * float64(time.Second)))
+		} else if !end.IsZero() && !strings.HasSuffix(s.Name, "@quick-bounds") {
+			if s.Isolated {
+				s.Deadline = end
+			} else {
+				left := time.Until(end)
+				if left < 20*time.Second {
+					left = 20 * time.Second
+				}
+				s.Deadline = time.Now().Add(left / time.Duration(seqLeft))
+				seqLeft--
+			}
 		}
 		run := func(i int, s HarnessSpec) {
 			var hr hres
